@@ -3,7 +3,7 @@
 use anyhow::{Context, Result};
 use clap::{Subcommand, ValueEnum};
 use std::fs;
-use std::path::Path;
+use std::path::{Component, Path, PathBuf};
 use wow_mpq::{
     Archive, ArchiveBuilder, FormatVersion, PatchChain, RebuildOptions,
     compare_archives as mpq_compare_archives,
@@ -706,6 +706,35 @@ fn extract_files(
     extract_files_with_options(options)
 }
 
+/// Destination of an archive entry below `output_dir`
+///
+/// Entry names come from the archive and are not trusted: a `..` component, a leading
+/// separator or a drive prefix would place the file outside the output directory
+/// (`Path::join` even replaces the base for an absolute path). Such names yield `None`.
+fn contained_output_path(output_dir: &str, file: &str, preserve_paths: bool) -> Option<PathBuf> {
+    let system_path = mpq_path_to_system(file);
+    let mut output_path = PathBuf::from(output_dir);
+
+    if preserve_paths {
+        let mut has_name = false;
+        for component in Path::new(&system_path).components() {
+            match component {
+                Component::Normal(part) => {
+                    output_path.push(part);
+                    has_name = true;
+                }
+                Component::CurDir => {}
+                Component::ParentDir | Component::RootDir | Component::Prefix(_) => return None,
+            }
+        }
+        has_name.then_some(output_path)
+    } else {
+        let filename = Path::new(&system_path).file_name()?;
+        output_path.push(filename);
+        Some(output_path)
+    }
+}
+
 fn extract_files_with_options(options: ExtractOptions) -> Result<()> {
     let ExtractOptions {
         archive_path,
@@ -822,13 +851,15 @@ fn extract_files_with_options(options: ExtractOptions) -> Result<()> {
 
             match data_result {
                 Ok(data) => {
-                    let output_path = if preserve_paths {
-                        let system_path = mpq_path_to_system(&file);
-                        Path::new(&output_dir).join(system_path)
-                    } else {
-                        let system_path = mpq_path_to_system(&file);
-                        let filename = Path::new(&system_path).file_name().unwrap_or_default();
-                        Path::new(&output_dir).join(filename)
+                    let Some(output_path) =
+                        contained_output_path(&output_dir, &file, preserve_paths)
+                    else {
+                        log::warn!(
+                            "Refusing to extract {file}: the name leads outside {output_dir}"
+                        );
+                        error_count += 1;
+                        pb.inc(1);
+                        continue;
                     };
 
                     if let Some(parent) = output_path.parent() {
@@ -900,15 +931,15 @@ fn extract_files_with_options(options: ExtractOptions) -> Result<()> {
 
             match chain.read_file(file) {
                 Ok(data) => {
-                    let output_path = if preserve_paths {
-                        // Convert MPQ path separators to system path separators
-                        let system_path = mpq_path_to_system(file);
-                        Path::new(&output_dir).join(system_path)
-                    } else {
-                        // Convert MPQ path to system path, then extract just the filename
-                        let system_path = mpq_path_to_system(file);
-                        let filename = Path::new(&system_path).file_name().unwrap_or_default();
-                        Path::new(&output_dir).join(filename)
+                    let Some(output_path) =
+                        contained_output_path(&output_dir, file, preserve_paths)
+                    else {
+                        log::warn!(
+                            "Refusing to extract {file}: the name leads outside {output_dir}"
+                        );
+                        error_count += 1;
+                        pb.inc(1);
+                        continue;
                     };
 
                     if let Some(parent) = output_path.parent() {
